@@ -32,10 +32,15 @@ class RemoveEntityGuard(Contract):
     lenient = True
 
     def cases(self):
-        return [(k, allow) for k in _classes() for allow in (False, True)]
+        # the flag as set in Python (bool) and as it comes back from a file (a numpy integer)
+        return [(k, allow) for k in _classes() for allow in (False, True, "int8-0", "int8-1")]
 
     def setup(self, ctx):
         kind, allow = ctx.case
+        if isinstance(allow, str):
+            import numpy as _np
+
+            allow = _np.int8(int(allow[-1]))
         cls = _classes()[kind]
         me = ws_obj(ctx, "open", "r+")
         me.fields["_io_call"] = io_call_summary(ctx)
@@ -61,13 +66,13 @@ class RemoveEntityGuard(Contract):
     def post(self, ctx, result):
         e = ctx.env
         ev = [k for k, p in ctx.path.events]
-        ctx.oblige("a-protected-entity-is-never-removed", e["allow"] is True)
+        ctx.oblige("a-protected-entity-is-never-removed", bool(e["allow"]) is True, note=f"delete permission {e['allow']!r} ({type(e['allow']).__name__})")
         acted = [k for k in ev if k in ("remove_recursively", "concatenator.remove_entity", "concatenator.remove_children", "parent.remove_children", "io")]
         ctx.oblige("a-removal-request-acts-on-the-entity", bool(acted))
 
     def post_raises(self, ctx, sig):
         e = ctx.env
-        ctx.oblige("refused-only-when-the-delete-permission-is-off", e["allow"] is False and sig.exc_class is UserWarning, kind="post-exc")
+        ctx.oblige("refused-only-when-the-delete-permission-is-off", bool(e["allow"]) is False and sig.exc_class is UserWarning, kind="post-exc")
         ctx.oblige("a-refused-removal-changes-nothing", not ctx.path.events, kind="post-exc", note="; ".join(k for k, p in ctx.path.events))
 
 
